@@ -207,6 +207,35 @@ func rootIdent(e ast.Expr) string {
 
 func lockFacts(files []*ast.File, typeName, mutexField string) []lockFact {
 	var out []lockFact
+	// helper methods whose whole body is one mutex operation on the receiver: name -> Lock/Unlock/RLock/RUnlock
+	helpers := map[string]string{}
+	for _, f := range files {
+		for _, d := range f.Decls {
+			fd, ok := d.(*ast.FuncDecl)
+			if !ok || fd.Body == nil || len(fd.Body.List) != 1 {
+				continue
+			}
+			tn, rv := recvName(fd)
+			if tn != typeName {
+				continue
+			}
+			es, ok := fd.Body.List[0].(*ast.ExprStmt)
+			if !ok {
+				continue
+			}
+			call, ok := es.X.(*ast.CallExpr)
+			if !ok {
+				continue
+			}
+			sel, ok := call.Fun.(*ast.SelectorExpr)
+			if !ok {
+				continue
+			}
+			if inner, ok := sel.X.(*ast.SelectorExpr); ok && inner.Sel.Name == mutexField && rootIdent(inner) == rv {
+				helpers[fd.Name.Name] = sel.Sel.Name
+			}
+		}
+	}
 	for _, f := range files {
 		for _, d := range f.Decls {
 			fd, ok := d.(*ast.FuncDecl)
@@ -218,42 +247,76 @@ func lockFacts(files []*ast.File, typeName, mutexField string) []lockFact {
 				continue
 			}
 			lf := lockFact{method: fd.Name.Name, lock: "none"}
-			// first statements: rv.mutex.Lock()/RLock() followed by defer rv.mutex.Unlock()/RUnlock()
-			if len(fd.Body.List) >= 2 {
-				lockCall := func(s ast.Stmt, isDefer bool) string {
-					var call *ast.CallExpr
-					if isDefer {
-						ds, ok := s.(*ast.DeferStmt)
-						if !ok {
-							return ""
-						}
-						call = ds.Call
-					} else {
-						es, ok := s.(*ast.ExprStmt)
-						if !ok {
-							return ""
-						}
-						call, ok = es.X.(*ast.CallExpr)
-						if !ok {
-							return ""
-						}
-					}
-					sel, ok := call.Fun.(*ast.SelectorExpr)
-					if !ok {
-						return ""
-					}
-					inner, ok := sel.X.(*ast.SelectorExpr)
-					if !ok || inner.Sel.Name != mutexField || rootIdent(inner) != rv {
-						return ""
-					}
+			// which mutex operation a call statement performs: rv.mutex.Op() directly, or rv.helper() where the
+			// helper's whole body is that one call
+			mutexOp := func(call *ast.CallExpr) string {
+				sel, ok := call.Fun.(*ast.SelectorExpr)
+				if !ok {
+					return ""
+				}
+				if inner, ok := sel.X.(*ast.SelectorExpr); ok && inner.Sel.Name == mutexField && rootIdent(inner) == rv {
 					return sel.Sel.Name
 				}
-				a, b := lockCall(fd.Body.List[0], false), lockCall(fd.Body.List[1], true)
+				if id, ok := sel.X.(*ast.Ident); ok && id.Name == rv && len(call.Args) == 0 {
+					return helpers[sel.Sel.Name]
+				}
+				return ""
+			}
+			stmtOp := func(s ast.Stmt) (op string, deferred bool) {
+				switch x := s.(type) {
+				case *ast.DeferStmt:
+					return mutexOp(x.Call), true
+				case *ast.ExprStmt:
+					if c, ok := x.X.(*ast.CallExpr); ok {
+						return mutexOp(c), false
+					}
+				}
+				return "", false
+			}
+			if _, isHelper := helpers[fd.Name.Name]; !isHelper && len(fd.Body.List) >= 2 {
+				a, aDef := stmtOp(fd.Body.List[0])
+				b, bDef := stmtOp(fd.Body.List[1])
+				held := ""
 				switch {
-				case a == "Lock" && b == "Unlock":
-					lf.lock = "excl"
-				case a == "RLock" && b == "RUnlock":
-					lf.lock = "shared"
+				case !aDef && bDef && a == "Lock" && b == "Unlock":
+					held = "excl" // Lock(); defer Unlock()
+				case !aDef && bDef && a == "RLock" && b == "RUnlock":
+					held = "shared"
+				case !aDef && (a == "Lock" || a == "RLock"):
+					// Lock() … Unlock() written out: exactly one unlock, as the last statement (or right before a
+					// final return), and no other return in the body
+					want := map[string]string{"Lock": "Unlock", "RLock": "RUnlock"}[a]
+					n := len(fd.Body.List)
+					last := fd.Body.List[n-1]
+					tail := n - 1
+					if _, isRet := last.(*ast.ReturnStmt); isRet && n >= 3 {
+						tail = n - 2
+					}
+					op, def := stmtOp(fd.Body.List[tail])
+					unlocks, returns := 0, 0
+					ast.Inspect(fd.Body, func(m ast.Node) bool {
+						switch y := m.(type) {
+						case *ast.ReturnStmt:
+							returns++
+						case *ast.FuncLit:
+							return false
+						case *ast.CallExpr:
+							if o := mutexOp(y); o == "Unlock" || o == "RUnlock" {
+								unlocks++
+							}
+						}
+						return true
+					})
+					finalRet := 0
+					if tail == n-2 {
+						finalRet = 1
+					}
+					if op == want && !def && unlocks == 1 && returns == finalRet {
+						held = map[string]string{"Lock": "excl", "RLock": "shared"}[a]
+					}
+				}
+				if held != "" {
+					lf.lock = held
 				}
 			}
 			ast.Inspect(fd.Body, func(n ast.Node) bool {
@@ -423,10 +486,13 @@ func aliasFacts(files []*ast.File) []aliasFact {
 							}
 							if x.Tok == token.DEFINE {
 								if i < len(x.Rhs) {
-									if ce, ok := x.Rhs[i].(*ast.CallExpr); ok {
-										if id, ok := ce.Fun.(*ast.Ident); ok && id.Name == "make" {
+									switch rhs := x.Rhs[i].(type) {
+									case *ast.CallExpr:
+										if id, ok := rhs.Fun.(*ast.Ident); ok && id.Name == "make" {
 											af.origin = "make"
 										}
+									case *ast.CompositeLit:
+										af.origin = "make" // []byte{…}: a fresh backing array as well
 									}
 								}
 								continue
@@ -438,6 +504,19 @@ func aliasFacts(files []*ast.File) []aliasFact {
 					case *ast.IncDecStmt:
 						if rootIdent(x.X) == c.v && x.Pos() > c.pos {
 							af.writtenAfter = true
+						}
+					case *ast.DeclStmt:
+						// var x []byte (no initialiser): a nil slice, grown by append inside the function
+						if gd, ok := x.Decl.(*ast.GenDecl); ok && gd.Tok == token.VAR {
+							for _, sp := range gd.Specs {
+								if vs, ok := sp.(*ast.ValueSpec); ok && len(vs.Values) == 0 {
+									for _, n := range vs.Names {
+										if n.Name == c.v {
+											af.origin = "make"
+										}
+									}
+								}
+							}
 						}
 					}
 					return true
